@@ -25,6 +25,12 @@ Regression probes (corpus/C03/pbf_findings.ops, REGRESSIONS below): the inputs o
 da64936 / 0285409 must give pbf_error; anything else = REGRESSION of the fix with the input.
 Item-size probe (`start_big_item_probe`): one 4 KiB file whose node becomes an item of more than 4 GiB,
 on a build without sanitizers (skipped below 12 GB of available memory).
+Small-buffer streams (`smallbuf_run`, used by all four parts): eight more ASan+UBSan builds of harness/c03.cpp
+with -DOSMIUM_VERIF_PARSER_INITIAL_BUFFER_SIZE=<n> -DOSMIUM_VERIF_PBF_INITIAL_BUFFER_SIZE=<n> (SMALL_CAPS) run the
+valid files and the structure-aware mutations: the parser buffers grow DURING builder calls (a builder that keeps
+a raw pointer across a reservation writes into freed memory -> ASan, or into the abandoned old buffer -> the
+delivered object is damaged -> guarded walk / comparison); the delivered objects must be identical to the run at
+the normal buffer size; the builder calls during which the buffer grew are reported (GROWTH_SITES).
 """
 import concurrent.futures
 import copy
@@ -37,7 +43,8 @@ MODULES = ['Osmium.Props.C03Pbf']
 EXES = ['model_pbf', 'model_c03']
 RULE = ('pbf hostile tier: prefixes + byte mutations + field-tree structure mutations of valid PBF files on the real Reader '
         '(ASan+UBSan, NDEBUG and assertions, 10 s watchdog, guarded + library traversal) and outcome class vs model_pbf; '
-        'distinct = distinct (input, build); non-trivial = all')
+        'valid files + structure mutations again on 8 builds whose parser buffers start at 64..200 bytes (growth during builder '
+        'calls; objects identical to the normal-size run); distinct = distinct (input, build); non-trivial = all')
 
 SAN_FLAGS = ['-fno-sanitize=signed-integer-overflow', '-fno-access-control']
 M64 = 2 ** 64 - 1
@@ -47,8 +54,20 @@ M64 = 2 ** 64 - 1
 # ======================================================================================================
 
 
-def build_harnesses(ctx):
+def build_harnesses(ctx, _done={}):
     import vlib
+    if 'prebuilt' not in _done:
+        # first call: compile every harness binary this property uses side by side (cold cache: a new /repo tree)
+        _done['prebuilt'] = True
+        jobs = [('c03_asan_n', ['c03.cpp'], dict(asan=True, ndebug=True, flags=SAN_FLAGS)),
+                ('c03_asan_d', ['c03.cpp'], dict(asan=True, ndebug=False, flags=SAN_FLAGS))] + small_build_jobs()
+        only = os.environ.get('C03_PARTS')
+        if not only or 'o5m' in only.split(','):
+            jobs += [('o5m_asan_n', ['o5m.cpp'], dict(asan=True, ndebug=True, flags=['-fno-sanitize=signed-integer-overflow'])),
+                     ('o5m_asan_d', ['o5m.cpp'], dict(asan=True, ndebug=False, flags=['-fno-sanitize=signed-integer-overflow']))]
+        if (not only or 'pbf' in only.split(',')) and mem_available_gb() >= 12.0:
+            jobs.append(('c03_plain_n', ['c03.cpp'], dict(asan=False, ndebug=True, flags=['-fno-access-control'])))
+        _prebuild(jobs)
     builds = []
     for name, nd in (('c03_asan_n', True), ('c03_asan_d', False)):
         hbin, err = vlib.build_cpp(name, ['c03.cpp'], asan=True, ndebug=nd, flags=SAN_FLAGS)
@@ -58,6 +77,193 @@ def build_harnesses(ctx):
             return None
         builds.append((name, '0' if nd else '1', hbin))
     return builds
+
+
+# ---- small-buffer builds ------------------------------------------------------------------------------
+# The parser buffers are 1 MiB (XML/OPL/o5m) / 64 KiB (PBF block) in a normal build, so with inputs of a few
+# KiB they never grow while an object is being built, and a builder that keeps a raw pointer into the buffer
+# across a reservation (the failure the property text names) is never exercised.  /repo has the hooks
+# OSMIUM_VERIF_PARSER_INITIAL_BUFFER_SIZE / OSMIUM_VERIF_PBF_INITIAL_BUFFER_SIZE for exactly this: these builds
+# start with a buffer of <cap> bytes, so that every object crosses the capacity somewhere.  (cap, NDEBUG)
+SMALL_CAPS = [(64, True), (64, False), (72, True), (88, True), (104, True), (104, False), (120, True), (200, True)]
+SMALL_FLAGS = ['-g1', '-fno-inline', '-rdynamic', '-DC03_GROWTH_TRACE']
+
+
+def _prebuild(jobs):
+    """compile harnesses side by side (each ASan build of the Reader takes 25-50 s): [(name, sources, kwargs)]"""
+    import vlib
+    vlib.repo_tree_hash()
+    with concurrent.futures.ThreadPoolExecutor(max_workers=max(1, min(len(jobs), (os.cpu_count() or 4) - 2))) as ex:
+        futs = [ex.submit(vlib.build_cpp, name, srcs, **kw) for name, srcs, kw in jobs]
+        return [f.result() for f in futs]
+
+
+def small_build_jobs():
+    import vlib
+    jobs = []
+    for cap, nd in SMALL_CAPS:
+        fl = SAN_FLAGS + SMALL_FLAGS + ['-DOSMIUM_VERIF_PARSER_INITIAL_BUFFER_SIZE=%d' % cap, '-DOSMIUM_VERIF_PBF_INITIAL_BUFFER_SIZE=%d' % cap]
+        jobs.append(('c03_sb%d_%s' % (cap, 'n' if nd else 'd'), ['c03.cpp'], dict(asan=True, ndebug=nd, flags=fl, libs=vlib.DEFAULT_LIBS + ['-ldl'])))
+    return jobs
+
+
+def build_small_harnesses(ctx, _cache={}):
+    """-> [(name, assert flag, binary, cap)] or None"""
+    if 'r' in _cache:
+        return _cache['r']
+    jobs = small_build_jobs()
+    res = _prebuild(jobs)
+    out = []
+    for (name, _, kw), (hbin, err), (cap, nd) in zip(jobs, res, SMALL_CAPS):
+        if hbin is None:
+            ctx.violation('c03-harness-build', 'small-buffer hostile harness %s does not compile against the current tree: %s' % (name, err[-600:]),
+                          {'kind': 'harness-build', 'stderr': err}, found_input=False)
+            _cache['r'] = None
+            return None
+        out.append((name, '0' if nd else '1', hbin, cap))
+    _cache['r'] = out
+    return out
+
+
+def resolve_sites(hbin, sites):
+    """'Fn+<hex offset in the executable>/helper/how' -> 'Fn@file:line/helper/how' (addr2line on the return address - 1)"""
+    offs = sorted(set(s.split('/')[0].rsplit('+', 1)[1] for s in sites if '+' in s.split('/')[0]))
+    lines = {}
+    if offs:
+        p = subprocess.run(['addr2line', '-e', hbin] + ['0x%x' % (int(o, 16) - 1) for o in offs], capture_output=True)
+        for o, l in zip(offs, p.stdout.decode('latin-1').split('\n')):
+            l = l.split(' ')[0]
+            lines[o] = os.path.basename(l) if l and not l.startswith('?') else '+' + o
+    out = {}
+    for s in sites:
+        head, _, rest = s.partition('/')
+        if '+' in head:
+            fn, o = head.rsplit('+', 1)
+            out[s] = '%s@%s/%s' % (fn, lines.get(o, '+' + o), rest)
+        else:
+            out[s] = s
+    return out
+
+
+# builder calls during which a reader's buffer can grow (padding never can: written and capacity are both
+# multiples of 8 after it).  Coverage of the small-buffer streams is reported against this list per format.
+GROWTH_SITES = {
+    'object-ctor': ('OSMObjectBuilder<', 'Builder'),
+    'set_user': ('::set_user@', 'direct'),
+    'taglist-ctor': ('TagListBuilder::TagListBuilder@', 'Builder'),
+    'add_tag': ('TagListBuilder::add_tag@', 'append'),
+    'nodelist-ctor': ('NodeRefListBuilder<WayNodeList>::NodeRefListBuilder@', 'Builder'),
+    'add_node_ref': ('NodeRefListBuilder<WayNodeList>::add_node_ref@', 'reserve_space_for<NodeRef>'),
+    'memberlist-ctor': ('RelationMemberListBuilder::RelationMemberListBuilder@', 'Builder'),
+    'add_member': ('RelationMemberListBuilder::add_member@', 'reserve_space_for<RelationMember>'),
+    'add_role': ('RelationMemberListBuilder::add_role@', 'append_with_zero'),
+    'discussion-ctor': ('ChangesetDiscussionBuilder::ChangesetDiscussionBuilder@', 'Builder'),
+    'add_comment': ('ChangesetDiscussionBuilder::add_comment@', 'reserve_space_for<ChangesetComment>'),
+    'comment-user': ('ChangesetDiscussionBuilder::add_user@', 'append_with_zero'),
+    'comment-text': ('ChangesetDiscussionBuilder::add_text@', 'append_with_zero'),
+}
+SITES_BY_FORMAT = {
+    'pbf': ['object-ctor', 'set_user', 'taglist-ctor', 'add_tag', 'nodelist-ctor', 'add_node_ref', 'memberlist-ctor', 'add_member', 'add_role'],
+    'o5m': ['object-ctor', 'set_user', 'taglist-ctor', 'add_tag', 'nodelist-ctor', 'add_node_ref', 'memberlist-ctor', 'add_member', 'add_role'],
+    'opl': ['object-ctor', 'set_user', 'taglist-ctor', 'add_tag', 'nodelist-ctor', 'add_node_ref', 'memberlist-ctor', 'add_member', 'add_role'],
+    'xml': ['object-ctor', 'set_user', 'taglist-ctor', 'add_tag', 'nodelist-ctor', 'add_node_ref', 'memberlist-ctor', 'add_member', 'add_role',
+            'discussion-ctor', 'add_comment', 'comment-user', 'comment-text'],
+}
+
+
+def smallbuf_run(ctx, part, fmt, inputs, reference, types, select=None, err_sample=4, share=None):
+    """The inputs (label, bytes) whose reference outcome (normal buffer size: reference[assert flag][i] = (out, crash))
+    delivered objects - plus every `err_sample`-th failing one - through every small-buffer build: guarded walk +
+    ASan as in the normal builds, and the delivered objects must be IDENTICAL to the run at the normal size
+    (buffer capacity is unobservable; C04: capacity_independent).  Growth sites go to the histogram.
+    `share` = n: every build runs the unmutated files and a rotating 1/n of the mutations (quick tier)."""
+    small = build_small_harnesses(ctx)
+    if small is None:
+        return
+    tick(ctx, part + ':smallbuf')
+    idx = []
+    nerr = 0
+    for i, (lab, d) in enumerate(inputs):
+        out, crash = reference['0'][i]
+        if crash is not None or out is None or out.startswith('OOB:') or out == 'NONSTD' or len(d) > 300000:
+            continue
+        if select is not None and not select(lab):
+            continue
+        if out.startswith('ok') and not out.startswith('ok 0 '):
+            idx.append(i)
+        else:
+            nerr += 1
+            if nerr % err_sample == 0:
+                idx.append(i)
+    ctx.extra['%s_smallbuf_inputs' % part] = len(idx)
+    seen_sites = set()
+    allidx = idx
+    nhits = 0
+    for bk, (bname, aflag, hbin, cap) in enumerate(small):
+        if nhits > 20:
+            # the finding is made (every further build would die on the same inputs, one process restart each)
+            ctx.count('%s-smallbuf-build-skipped-after-hits' % part)
+            continue
+        idx = [i for k, i in enumerate(allidx) if not share or (k + bk) % share == 0 or inputs[i][0] in ('valid', 'writer') or inputs[i][0].startswith('shift')]
+        lines = ['rd %s %s none %d %s' % (aflag, fmt, types(i) if callable(types) else types, inputs[i][1].hex() or '-') for i in idx]
+        for l in lines:
+            ctx.note_case(bname + ' ' + l)
+        res = run_harness(hbin, lines)
+        ndis = 0
+        raw_sites = {}
+        for i, line, (out, crash) in zip(idx, lines, res):
+            lab, d = inputs[i]
+            if out is not None and ' #g:' in out:
+                out, _, g = out.partition(' #g:')
+                for sname in g.split(','):
+                    if sname:
+                        raw_sites[sname] = raw_sites.get(sname, 0) + 1
+            if crash is not None or (out is not None and (out.startswith('OOB:') or out == 'NONSTD')):
+                nhits += 1
+                report(ctx, part, fmt, types(i) if callable(types) else types, bname, aflag, hbin, 'smallbuf%d:%s' % (cap, lab), d, line, None, out, crash,
+                       note='parser buffers start at %d bytes in this build (OSMIUM_VERIF_PARSER/PBF_INITIAL_BUFFER_SIZE): they grow while the object is built' % cap)
+                continue
+            if out is None:
+                continue
+            ref, refcrash = reference[aflag][i] if aflag in reference else reference['0'][i]
+            if refcrash is not None or ref is None:
+                continue
+            ctx.count('%s-smallbuf-outcome:%s' % (part, 'ok' if out.startswith('ok') else out.split(' ')[0]))
+            if out != ref:
+                ndis += 1
+                key = '%s-buffer-capacity-observable' % part
+                if not any(v.key == key for v in ctx.violations):
+                    k = next((j for j in range(min(len(out), len(ref))) if out[j] != ref[j]), min(len(out), len(ref)))
+                    ctx.violation(key, 'real Reader on a %d-byte %s input (mutation %s): with parser buffers that start at %d bytes (%s) it delivers `…%s`, '
+                                  'with the normal buffer size `…%s` — the buffer capacity must not be observable (an object was damaged when the buffer grew '
+                                  'during a builder call)' % (len(d), fmt, lab, cap, bname, out[max(k - 40, 0):k + 80], ref[max(k - 40, 0):k + 80]),
+                                  {'kind': 'counterexample', 'op': line if len(line) < 60000 else line[:60000] + '…', 'build': bname, 'small': out[:4000], 'normal': ref[:4000],
+                                   'replay': 'echo "<op>" | <harness/c03.cpp built as %s> versus <c03_asan_%s>' % (bname, 'n' if aflag == '0' else 'd')})
+        st = ctx.streams.setdefault('%s-c03-smallbuf-vs-normal-%s' % (part, bname), {'lines': 0, 'disagreements': 0})
+        st['lines'] += len(lines)
+        st['disagreements'] += ndis
+        names = resolve_sites(hbin, list(raw_sites))
+        for sname, n in raw_sites.items():
+            seen_sites.add(names[sname])
+            ctx.count('%s-smallbuf-growth:%s' % (part, names[sname]), n)
+    missing = []
+    for want in SITES_BY_FORMAT.get(fmt, []):
+        frag, helper = GROWTH_SITES[want]
+        hits = [s for s in seen_sites if frag in s and s.split('/')[1].startswith(helper)]
+        if want == 'add_tag' and len(set(s.split('/')[0] for s in hits)) < 2:
+            missing.append('add_tag (key and value)')
+        elif not hits:
+            missing.append(want)
+    ctx.extra['%s_smallbuf_growth_sites' % part] = len(seen_sites)
+    ctx.extra['%s_smallbuf_sites_without_growth' % part] = missing
+    if missing:
+        ctx.assumptions.append('%s small-buffer streams: no buffer growth was observed during these builder calls in this run: %s' % (part, ', '.join(missing)))
+    tick(ctx, part + ':smallbuf-done')
+
+
+def structure_label(lab):
+    """valid files and structure-aware mutations (not the random prefixes / byte mutations / corpus probes)"""
+    return not lab.startswith(('prefix', 'bytes', 'writer-prefix', 'writer-bytes', 'corpus', 'H.'))
 
 
 def tick(ctx, label, _state={}):
@@ -349,7 +555,7 @@ def hostile_run(ctx, part, fmt, builds, inputs, model_fn, types=23, probes=None,
     return inputs, outcomes
 
 
-def report(ctx, part, fmt, types, bname, aflag, hbin, lab, d, line, mod, out, crash, shrinkable=True, probe=None):
+def report(ctx, part, fmt, types, bname, aflag, hbin, lab, d, line, mod, out, crash, shrinkable=True, probe=None, note=None):
     sig = crash_signature(crash) if crash is not None else out
     key = finding_key(fmt, sig, crash['stderr'] if crash else '', d, out)
     if probe is not None and not key.split(':')[0] in REGRESSIONS:
@@ -361,6 +567,8 @@ def report(ctx, part, fmt, types, bname, aflag, hbin, lab, d, line, mod, out, cr
     if shrinkable and len(d) <= 300000 and not lab.startswith('corpus'):      # corpus inputs are minimal already
         def same(r):
             o, c = r
+            if o is not None:
+                o = o.partition(' #g:')[0]      # growth trace of the small-buffer builds
             s2 = crash_signature(c) if c is not None else o
             if s2 is None:
                 return False
@@ -373,12 +581,15 @@ def report(ctx, part, fmt, types, bname, aflag, hbin, lab, d, line, mod, out, cr
         except Exception:
             small = d
     sline = 'rd %s %s none %d %s' % (aflag, fmt, types, small.hex() or '-')
-    what = ('real Reader (%s, ASan+UBSan%s) on a %d-byte %s input (mutation %s; shrunk to %d bytes): %s; the model predicted `%s`'
-            % (bname, ', -DNDEBUG' if aflag == '0' else ', assertions on', len(d), fmt, lab, len(small), sig, mod))
+    what = ('real Reader (%s, ASan+UBSan%s) on a %d-byte %s input (mutation %s; shrunk to %d bytes): %s%s'
+            % (bname, ', -DNDEBUG' if aflag == '0' else ', assertions on', len(d), fmt, lab, len(small), sig,
+               '; the model predicted `%s`' % mod if mod is not None else ''))
     if key in REGRESSIONS:
         what = REGRESSIONS[key] + ' — ' + what
     if probe is not None:
         what += '; regression probe, the repaired code gives `%s`' % probe[1]
+    if note:
+        what += ' — ' + note
     rep = {'kind': 'counterexample', 'op': sline if len(sline) < 60000 else sline[:60000] + '…', 'build': bname, 'mutation': lab,
            'original_len': len(d), 'model': mod,
            'replay': 'echo "<op>" | <harness/c03.cpp built as %s>' % bname}
@@ -1088,7 +1299,8 @@ def run_part(ctx):
     def outside(d, mod, cls, out):
         return 'lazy-decoding' if mod == 'err' and cls == 'ok' and lazy_tail(d) else None
 
-    hostile_run(ctx, 'pbf', 'pbf', builds, inputs, model_fn, types=7, probes=probes, comp_sample=40 if quick else 400, outside_model=outside)
+    pin, pouts = hostile_run(ctx, 'pbf', 'pbf', builds, inputs, model_fn, types=7, probes=probes, comp_sample=40 if quick else 400, outside_model=outside)
+    smallbuf_run(ctx, 'pbf', 'pbf', pin, pouts, 7, select=structure_label, share=2 if quick else None)
     tick(ctx, 'pbf:big-item-probe')
     finish_big()
     tick(ctx, 'pbf:done')
